@@ -360,6 +360,17 @@ class Lab:
 
         FSM.change = change
 
+        from exabgp.configuration.configuration import Configuration
+
+        orig_reload = Configuration.reload
+
+        def reload(cfg):
+            ret = orig_reload(cfg)
+            lab.event('config-reload', ok=ret is True, error=str(cfg.error)[-300:])
+            return ret
+
+        Configuration.reload = reload
+
         for name in ('up', 'down', 'connected'):
             orig = getattr(Processes, name)
 
